@@ -94,6 +94,22 @@ def generate(ctx):
         ids = (ctx.add('to_string_raw %s' % e, diff=False).id, ctx.add('to_pretty_string_raw %s' % e, diff=False).id,
                ctx.add('text_roundtrip %s' % e, diff=False).id)
         ctx.trials.append((v, ids))
+    # the byte walker on buffers that are NOT valid encodings (prefixes, one byte changed): C03 says nothing about them,
+    # but the offset-faithful model (RenderWalk.v) does: a failed read or Number::decode error makes to_string answer
+    # "null", an index past the end panics, from_utf8_lossy replaces ill-formed UTF-8.  Tie only (model = code).
+    small = [v for v in ds if len(gen.enc(v)) <= 120]
+    for v in r.sample(small, min(len(small), ctx.scale(150, 4000))):
+        e = gen.enc(v)
+        muts = [e[:i] for i in range(len(e))] if len(e) <= 40 else [e[:r.randrange(len(e))] for _ in range(12)]
+        for _ in range(16):
+            i = r.randrange(len(e))
+            muts.append(e[:i] + bytes([r.choice([0, 1, 4, 0x10, 0x20, 0x30, 0x40, 0x50, 0x60, 0x70, 0x7f, 0x80, 0xc3, 0xe2, 0xf0, 0xff,
+                                                 e[i] ^ 1, e[i] ^ 0x10, (e[i] + 1) & 0xff])]) + e[i + 1:])
+        for m in muts:
+            if m and m[0] in (0x80, 0x40, 0x20):
+                h = gen.hexarg(m)
+                ctx.add('to_string %s' % h, kind='malformed')
+                ctx.add('to_pretty_string %s' % h, kind='malformed')
 
 
 def judge(ctx):
